@@ -68,6 +68,8 @@ class Planar(AbstractBijection):
             self.conditioner = eqx.nn.MLP(cond_dim, 2 * dim + 1, **mlp_kwargs, key=key)
             self.cond_shape = (cond_dim,)
 
+        if negative_slope is not None:
+            negative_slope = float(negative_slope)  # python float: static under jit
         self.negative_slope = negative_slope
 
     def transform(self, x, condition=None):
@@ -120,6 +122,8 @@ class _UnconditionalPlanar(AbstractBijection):
         self.weight = weight
         self.bias = bias
         self.shape = weight.shape
+        if negative_slope is not None:
+            negative_slope = float(negative_slope)  # python float: static under jit
         self.negative_slope = negative_slope
         self._act_scale = act_scale
 
